@@ -5,6 +5,19 @@ import os
 VERIF = os.path.dirname(os.path.dirname(os.path.abspath(__file__)))
 
 CLAIMED = {
+    "C09": ("TLA+ GenMech (token machine) |= A level: TLC enumerates histories, each replayed with real generators, TraceGen",
+            "all overlay/generator histories up to a bound are enumerated by TLC, executed with real generators, and the "
+            "handlers seen by the driver and the events per overlay are validated after every step"),
+    "C15": ("TLA+ Parser transcription + ParserLaws (TLC exhaustive over operand substitutions) + TraceParser on real parse()",
+            "the documented equivalences are model-checked on the parser transcription for every operand substitution of a "
+            "bounded space, and the same substitutions plus random re-spacings are parsed by the real code and judged by TLC "
+            "(equal outcome, identical object, lexer model agreement)"),
+    "C17": ("TLA+ stream machine: StreamGen enumerates histories, each replayed with real giving pipelines, TraceStream",
+            "every history of stage attachment / activation / calls / deactivation / re-activation up to a bound is replayed "
+            "with a real Probe; per-stage outputs, completions and clean-up are validated after each step"),
+    "C18": ("TLA+ Parser transcription: ParserMC (all token strings up to a bound, NoInternal + termination) + TraceParser",
+            "TLC runs every bounded token string through the transcription collecting internal-error signatures; the real "
+            "parse()/select()/probing() outcomes of all short strings, grammar mutations and witnesses are judged by TLC"),
     "C01": ("TLA+ TraceXform (refinement under hiding) + TLC validation of plain/twin/instrumented runs of IR programs",
             "for every program of the IR families and every control-flow path found, the instrumented runs (tooled, in-place, "
             "non-overriding probes on variable subsets) are compared by TLC with the untouched function: same observable "
